@@ -85,7 +85,9 @@ class C03(Prop):
                     Layer("boolean P2xP1/names whose pair spellings coincide", lambda: self.bin_cases("bool", "P2", "P1"),
                           policies=["natural@pair", "natural@mixed"]),
                     Layer("rational P1xP1", lambda: self.bin_cases("rat", "P1", "P1"), policies=two),
-                    Layer("rational P1xP1{b,c}", lambda: self.bin_cases("rat", "P1", "P1", ("b", "c")), policies=two)]
+                    Layer("rational P1xP1{b,c}", lambda: self.bin_cases("rat", "P1", "P1", ("b", "c")), policies=two),
+                    Layer("rational P1xP1{$,+} (whole symbols spelt like regex operators)",
+                          lambda: self.bin_cases("rat", "P1", "P1", ("$", "+")), policies=two[:1])]
         few = ["natural@int", "natural@str", "1@int", "2@str", "s%d@int" % seed]
         return [Layer("unary FA(2,2,<=12)", lambda: self.un_cases("U2"), rep=rep_un_s),
                 Layer("unary FA(3,2,<=3)", lambda: self.un_cases("U3"), rep=rep_un_s),
@@ -96,7 +98,9 @@ class C03(Prop):
                 Layer("boolean P2xP2/names whose pair spellings coincide", lambda: self.bin_cases("bool", "P2", "P2"),
                       policies=["natural@pair", "natural@mixed", "1@pair"]),
                 Layer("rational P2xP1", lambda: self.bin_cases("rat", "P2", "P1"), policies=few[:3]),
-                Layer("rational P1xP2{b,c}", lambda: self.bin_cases("rat", "P1", "P2", ("b", "c")), policies=few[:3])]
+                Layer("rational P1xP2{b,c}", lambda: self.bin_cases("rat", "P1", "P2", ("b", "c")), policies=few[:3]),
+                Layer("rational P1xP2{$,+} (whole symbols spelt like regex operators)",
+                      lambda: self.bin_cases("rat", "P1", "P2", ("$", "+")), policies=few[:2])]
 
     def default_policies(self, tier, seed):
         if tier == "quick":
